@@ -165,6 +165,19 @@ def run(ck, F, E):
     common.map_rule(ck, F, E, P)
 
     # ---- (2)+(3) CLI
+    # `abasic FILE`: the file is loaded and then run -- run_impl calls load_source_file when a file name was given, and queues RUN
+    ri0 = F.one("StdioInterpreter::run_impl", "abasic")
+    if ri0 is not None:
+        from lib import controlling_switches
+        lc = ri0.calls_to("StdioInterpreter::load_source_file")
+        guarded = [c for c in lc if any("source_filename" in show(subj) and names and "Some" in names.values()
+                                          for (sb, subj, names) in controlling_switches(ri0, c.bb))]
+        has_run = any(st["k"] == "assign" and "RUN" in json_str(st) for blk in ri0.blocks for st in blk["stmts"]) or \
+            any("RUN" in json_str(blk.get("term")) for blk in ri0.blocks)
+        ck.require(bool(guarded) and has_run, "C15:CLI:file-is-loaded-and-run", "R-CONFIG",
+                   "run_impl loads the named file (when one was given) and queues RUN",
+                   "StdioInterpreter::run_impl no longer loads the file named on the command line and runs it: `abasic FILE` does "
+                   "not execute FILE's program at all", ri0.span)
     ls = F.one("StdioInterpreter::load_source_file", "abasic")
     if ls is None:
         ck.missing("C15:CLI:load_source_file", "abasic::stdio_interpreter::StdioInterpreter::load_source_file")
@@ -345,6 +358,14 @@ def _buffer_summaries(F):
                 summ[p] = new
                 changed = True
     return summ, flow, transfer
+
+
+def json_str(x):
+    import json as _j
+    try:
+        return _j.dumps(x)
+    except Exception:
+        return str(x)
 
 
 def printer_contracts(ck, F):
